@@ -481,6 +481,8 @@ def run(prog, ctx):
     check_parallel_refresh(prog, ctx)
     # ------------------------------------------------------------------ D10
     check_results_not_modified(prog, ctx)
+    # ------------------------------------------------------------------ D11
+    check_shared_distribution_key(prog, ctx)
 
     # ------------------------------------------------------------------ D6
     gmw = prog.func(GW + ".get_middle_weighted")
@@ -763,3 +765,74 @@ def check_parallel_refresh(prog, ctx):
                   "%s are all stored on every path" % sorted(group),
                   "; ".join(problems))
     ctx.floor("C15.D9.sites", n, 1, "methods storing the paired sequences")
+
+
+# --------------------------------------------------------------------------------------------------------------- D11
+def check_shared_distribution_key(prog, ctx):
+    """_prepare_distributions builds one distribution object per dimension but re-uses the object of an earlier dimension when a key
+    was seen before (`K in known` / `known[K] = d` / `self.distributions[known[K]]`).  The re-used object must not depend on anything
+    the key does not determine: every loop-variant input of the objects constructed on the not-yet-known paths (a[d], b[d],
+    distris[d], ...) has to be derived from a component of the key.  (Uniform and Triangle take a[d] and b[d]; a key made of the
+    distribution description alone hands dimension 1 the interval of dimension 0 and its weights sum to 0.)"""
+    fi = prog.func(UQ + "._prepare_distributions")
+    ctx.touch(fi)
+    tm = Terms(fi.node, max_depth=0)
+    c = cfg_of(fi)
+    loops = [l for l in walk_local(fi.node) if isinstance(l, ast.For) and isinstance(l.target, ast.Name)]
+    n = 0
+    for loop in loops:
+        lv = loop.target.id
+        # memo dictionaries: local dicts with `K in D` tests and `D[K] = ...` stores inside the loop
+        stores = [st for st in ast.walk(loop) if isinstance(st, ast.Assign) and len(st.targets) == 1 and isinstance(st.targets[0], ast.Subscript)
+                  and isinstance(st.targets[0].value, ast.Name)]
+        for st in stores:
+            dname = st.targets[0].value.id
+            tests = [x for x in ast.walk(loop) if isinstance(x, ast.Compare) and len(x.ops) == 1 and isinstance(x.ops[0], (ast.In, ast.NotIn))
+                     and isinstance(x.comparators[0], ast.Name) and x.comparators[0].id == dname]
+            if not tests:
+                continue
+            sn = c.node_of(st)
+            key_t = R.resolve_locals(fi, tm.term(st.targets[0].slice), sn, tm, depth=4)
+
+            def variant(t):
+                return {x for x in subterms(t) if x[0] == "s" and any(y == ("n", lv) for y in subterms(x[2]))}
+            key_deps = variant(key_t)
+            # objects constructed where the key is not known yet: appends to an instance list in the loop that do not read the memo
+            n_objs = 0
+            missing = {}
+            for call in [x for x in ast.walk(loop) if isinstance(x, ast.Call) and isinstance(x.func, ast.Attribute) and x.func.attr == "append"
+                         and R.self_attr(x.func.value, fi.self_name) is not None and x.args]:
+                cn = c.node_containing(call)
+                if cn is None:
+                    continue
+                arg_t = R.resolve_locals(fi, tm.term(call.args[0]), cn, tm, depth=4)
+                if any(x == ("n", dname) for x in subterms(arg_t)):
+                    continue                                 # the re-use itself
+                guards = [g for (g, gn) in R.dominating_guards(fi, cn, tm)]
+                # only constructions that the memo governs (some guard mentions the memo or a flag computed from it)
+                flag_names = {b.name for bs in tm.env.bindings.values() for b in bs if b.kind == "assign" and b.value is not None
+                              and any(t_ is y for t_ in tests for y in ast.walk(b.value))}
+                governed = any(any(x == ("n", dname) or (x[0] == "n" and x[1] in flag_names) for x in subterms(g)) for g in guards)
+                if not governed:
+                    continue
+                n_objs += 1
+                deps = set(variant(arg_t))
+                # closures handed to the object: their default values / free loop-variant names
+                for nm in {x[1] for x in subterms(arg_t) if x[0] == "n"}:
+                    for fdef in [d_ for d_ in ast.walk(loop) if isinstance(d_, ast.FunctionDef) and d_.name == nm]:
+                        dn = c.node_of(fdef)
+                        for dflt in fdef.args.defaults + [k for k in fdef.args.kw_defaults if k is not None]:
+                            deps |= variant(R.resolve_locals(fi, tm.term(dflt), dn, tm, depth=4)) if dn is not None else set()
+                for dterm in deps:
+                    if not any(k == dterm or any(y == k for y in subterms(dterm)) for k in key_deps):
+                        missing.setdefault(show(dterm), src(call)[:60])
+            if n_objs == 0:
+                continue
+            n += 1
+            ctx.check(not missing, "C15.D11", R.key_of(fi, "shared-object-key-covers-inputs:%s" % dname), fi.loc(st),
+                      "the key `%s` determines every loop-variant input of the %d object construction(s) it lets later dimensions share"
+                      % (show(key_t)[:60], n_objs),
+                      "the per-dimension objects are shared under the key `%s`, but %s depend(s) on %s, which the key does not determine: a later "
+                      "dimension with the same key receives the object built for another %s"
+                      % (show(key_t)[:60], sorted(set(missing.values()))[:2], sorted(missing)[:4], "/".join(sorted(missing)[:2])))
+    ctx.floor("C15.D11", n, 1, "memoised per-dimension object constructions in _prepare_distributions")
